@@ -115,8 +115,27 @@ def _event(fn):
     return [0, canon_packet(pkt)], False
 
 
-def run_copy(serializer, chunks):
-    consumer = StreamDataConsumer(StreamProtocol(serializer))
+class DigitsConverter:
+    """accepts exactly the non-empty all-ASCII-digit strings"""
+
+    def __new__(cls):
+        from easynetwork.converter import AbstractPacketConverter
+        from easynetwork.exceptions import PacketConversionError
+
+        class _C(AbstractPacketConverter[str, str]):
+            def create_from_dto_packet(self, packet):
+                if not (packet and all("0" <= ch <= "9" for ch in packet)):
+                    raise PacketConversionError("not digits")
+                return packet
+
+            def convert_to_dto_packet(self, obj):
+                return obj
+
+        return _C()
+
+
+def run_copy(serializer, chunks, converter=None):
+    consumer = StreamDataConsumer(StreamProtocol(serializer, converter))
     rounds = []
     for ch in chunks:
         evs = []
@@ -132,8 +151,8 @@ def run_copy(serializer, chunks):
     return rounds
 
 
-def run_buffered(serializer, sizehint, chunks):
-    consumer = BufferedStreamDataConsumer(BufferedStreamProtocol(serializer), sizehint)
+def run_buffered(serializer, sizehint, chunks, converter=None):
+    consumer = BufferedStreamDataConsumer(BufferedStreamProtocol(serializer, converter), sizehint)
     rounds = []
 
     def held():
@@ -174,6 +193,10 @@ def run_buffered(serializer, sizehint, chunks):
 
 def run_impl(inp):
     kind, cfg, _dec, chunks, impl = inp[:5]
+    if kind in (11, 12):        # kinds 0 / 1 with a converter in the protocol
+        ser = make_serializer(kind - 11, cfg, impl)
+        conv = DigitsConverter()
+        return run_copy(ser, chunks, conv) if kind == 11 else run_buffered(ser, cfg[3], chunks, conv)
     ser = make_serializer(kind, cfg, impl)
     if kind in (0, 2):
         return run_copy(ser, chunks)
